@@ -260,7 +260,7 @@ func (x *X) inlineLocals(fn *ast.FuncDecl, names ...string) {
 			}
 		}
 	}
-	inlineNewAliases(fn, objs)
+	inlineNewAliases(nil, fn, objs)
 }
 
 // negate returns the negation of a condition, pushing it into comparisons and through && / || / !.
@@ -404,4 +404,66 @@ func (x *X) isNonEmptyTest(e ast.Expr, lenText string) bool {
 		return false
 	}
 	return (r == "0" && (op == token.NEQ || op == token.GTR)) || (r == "1" && op == token.GEQ)
+}
+
+// terminates: does control never fall out of the end of this block (return, panic, break, continue, goto)?
+func terminates(b *ast.BlockStmt) bool {
+	if b == nil || len(b.List) == 0 {
+		return false
+	}
+	switch t := b.List[len(b.List)-1].(type) {
+	case *ast.ReturnStmt, *ast.BranchStmt:
+		return true
+	case *ast.ExprStmt:
+		if c, ok := t.X.(*ast.CallExpr); ok {
+			if id, ok := c.Fun.(*ast.Ident); ok && id.Name == "panic" && id.Obj == nil {
+				return true
+			}
+		}
+	}
+	return false
+}
+
+// mergeElseIf reads `if A { …; return }` directly followed by `if B { … }` as `if A { …; return } else if B { … }`
+// (repeatedly): when every branch before it leaves the function or loop, the second `if` is reached exactly when
+// an `else` would be.  The input list is not modified.
+func mergeElseIf(list []ast.Stmt) []ast.Stmt {
+	out := append([]ast.Stmt(nil), list...)
+	for i := 0; i+1 < len(out); {
+		a, ok1 := out[i].(*ast.IfStmt)
+		b, ok2 := out[i+1].(*ast.IfStmt)
+		if !ok1 || !ok2 || b.Init != nil {
+			i++
+			continue
+		}
+		// walk to the end of a's else-if chain; every branch must terminate and the chain must have no final else
+		allTerm := true
+		last := a
+		for {
+			allTerm = allTerm && terminates(last.Body)
+			next, isIf := last.Else.(*ast.IfStmt)
+			if !isIf {
+				break
+			}
+			last = next
+		}
+		if !allTerm || last.Else != nil {
+			i++
+			continue
+		}
+		// copy the chain so that the parsed tree stays as it is
+		var cp func(s *ast.IfStmt) *ast.IfStmt
+		cp = func(s *ast.IfStmt) *ast.IfStmt {
+			c := *s
+			if e, ok := s.Else.(*ast.IfStmt); ok {
+				c.Else = cp(e)
+			} else {
+				c.Else = b
+			}
+			return &c
+		}
+		out[i] = cp(a)
+		out = append(out[:i+1], out[i+2:]...)
+	}
+	return out
 }
